@@ -183,6 +183,7 @@ type NodeSpec struct {
 	IPs         []string          `json:"ips,omitempty"` // InternalIP addresses
 	Unavailable bool              `json:"unavailable,omitempty"`
 	Excluded    bool              `json:"excluded,omitempty"`
+	ExclValue   string            `json:"excluded_value,omitempty"` // value of the exclude label (the label counts by presence, whatever its value)
 }
 
 func (n NodeSpec) AllLabels() map[string]string {
@@ -191,7 +192,7 @@ func (n NodeSpec) AllLabels() map[string]string {
 		if l == nil {
 			l = map[string]string{}
 		}
-		l[corev1.LabelNodeExcludeBalancers] = ""
+		l[corev1.LabelNodeExcludeBalancers] = n.ExclValue
 	}
 	return l
 }
@@ -522,7 +523,6 @@ func (p PoolSpec) Enumerate(limit int) []netip.Addr {
 
 func secs(n int) timeDuration { return timeDuration(n) * 1000000000 }
 
-
 // ---------------------------------------------------------------- endpoint slices
 
 // Tri is an optional boolean: 0 nil, 1 true, 2 false.
@@ -558,4 +558,9 @@ type SliceSpec struct {
 	NS        string         `json:"ns"`
 	Svc       string         `json:"svc"` // service name
 	Endpoints []EndpointSpec `json:"endpoints"`
+}
+
+func (n NodeSpec) WithExcl(on bool, val string) NodeSpec {
+	n.Excluded, n.ExclValue = on, val
+	return n
 }
